@@ -63,10 +63,12 @@ impl McClient {
             sock.bind(SocketAddr::new(ip, 0))?;
         }
         let stream = sock.connect(server).await?;
-        stream.set_nodelay(true)?;
+        // (the connection is established; a server that resets connections it refuses may already have done so, and
+        // the socket options then fail: that is not a failure to connect, the next read will report the reset)
+        let _ = stream.set_nodelay(true);
         #[allow(deprecated)]
-        stream.set_linger(Some(Duration::ZERO))?;
-        let local = stream.local_addr()?;
+        let _ = stream.set_linger(Some(Duration::ZERO));
+        let local = stream.local_addr().unwrap_or_else(|_| SocketAddr::new(bind_ip.unwrap_or(IpAddr::V4(std::net::Ipv4Addr::UNSPECIFIED)), 0));
         Ok(Self { stream, enc: None, dec: None, rbuf: vec![], phase: Phase::Handshake, local, received: 0 })
     }
 
@@ -662,7 +664,7 @@ pub fn spawn_app_with(max_packet_length: u64, expiry: u64, timeout: u64, proxy: 
         .args(["C14-child", &port.to_string(), &max_packet_length.to_string(), &expiry.to_string(), &timeout.to_string(), if proxy.is_empty() { "off" } else { proxy }, &limit.to_string()])
         .args(extra)
         .stdout(std::process::Stdio::null())
-        .stderr(std::process::Stdio::null())
+        .stderr(if std::env::var_os("VERIF_CHILD_STDERR").is_some() { std::process::Stdio::inherit() } else { std::process::Stdio::null() })
         .spawn()
         .expect("spawn child");
     let addr: SocketAddr = format!("127.0.0.1:{port}").parse().unwrap();
@@ -686,9 +688,19 @@ pub fn stop_app(mut app: App) -> Option<i32> {
     let t0 = Instant::now();
     loop {
         if let Ok(Some(st)) = app.child.try_wait() {
+            if std::env::var_os("VERIF_CHILD_STDERR").is_some() {
+                use std::os::unix::process::ExitStatusExt;
+                eprintln!("child {} ended: code {:?} signal {:?} {:?} after the stop request", app.addr, st.code(), st.signal(), t0.elapsed());
+            }
             return st.code();
         }
         if t0.elapsed() > Duration::from_secs(8) {
+            if std::env::var_os("VERIF_CHILD_STDERR").is_some() {
+                eprintln!("child {} (pid {}) still running 8 s after SIGINT; its threads:", app.addr, app.child.id());
+                if let Ok(o) = std::process::Command::new("gdb").args(["-p", &app.child.id().to_string(), "-batch", "-ex", "thread apply all bt 12"]).output() {
+                    eprintln!("{}", String::from_utf8_lossy(&o.stdout));
+                }
+            }
             let _ = app.child.kill();
             let _ = app.child.wait();
             return None;
